@@ -8,7 +8,8 @@ Property theorems about `Model/Crop.lean` (the transcription of cmd/mp4ff-crop/m
 table-cropping routine against the naive per-sample expansion of the table, and the layout of the kept chunks in the
 new mdat.  Proofs in `Mp4ff/Lemmas/C10*.lean`.  The model is tied to the tool by the `crop` correspondence op: the
 tables of every generated input file go through `cropAll`, and the result is compared with the tables and chunk
-offsets of the file the built binary writes.
+offsets of the file the built binary writes; the `cropmdat` op compares `copied file (mergeRanges pieces)` (the bytes
+`place_spec` speaks about) with the payload of the mdat the binary wrote, on files whose chunks are stored in any order.
 -/
 namespace Mp4ff.Crop.C10
 open Mp4ff.Crop Mp4ff.Stbl
@@ -76,6 +77,11 @@ theorem place_spec (file : Bytes) (p : Pending) (h : InFile file p) (start : Nat
 /-- merging adjacent byte ranges (`byteRanges.addRange`) does not change what is copied -/
 theorem mergeRanges_copied (file : Bytes) (pieces : List KChunk) (h : ∀ c ∈ pieces, c.off + c.size ≤ file.length) :
     copied file (mergeRanges pieces) = copied file pieces := Crop.mergeRanges_copied file pieces h
+
+/-- the layout assumes no order of the chunk offsets: track 1 stores its second chunk before its first one and both
+    around the chunk of track 2; chunks are written in processing order (per track in chunk order, across tracks by the
+    lowest next offset), not in input order -/
+example : place [[⟨50, 2⟩, ⟨10, 3⟩], [⟨30, 4⟩]] 100 = ([[104, 106], [100]], [⟨30, 4⟩, ⟨50, 2⟩, ⟨10, 3⟩]) := by decide
 
 /-- non-vacuity: a two-run stts cut inside the second run -/
 example : (cropStts ⟨[3, 4], [10, 20]⟩ 5).map (·.durations) = some [10, 10, 10, 20, 20] := by decide
